@@ -334,12 +334,28 @@ func stressBreaker(seed int64, scale int) int {
 		capTrial := 1 + rng.Intn(3)
 		ft := 1 + rng.Intn(3)
 		delay := int64(100)
-		var opened, halfOpened atomic.Int32
+		var opened, halfOpened, probeInvoked atomic.Int32
+		var probeWg sync.WaitGroup
+		var cbRef atomic.Pointer[circuitbreaker.CircuitBreaker[int]]
 		// every state change, in the order the (slow) generic listener was told about it: must be a connected path
 		var evMu sync.Mutex
 		var evPath [][2]circuitbreaker.State
 		b := circuitbreaker.Builder[int]().WithFailureThreshold(uint(ft)).WithSuccessThresholdRatio(uint(capTrial), uint(capTrial)).WithDelay(time.Duration(delay)).
-			OnOpen(func(circuitbreaker.StateChangedEvent) { opened.Add(1) }).OnHalfOpen(func(circuitbreaker.StateChangedEvent) { halfOpened.Add(1) }).
+			OnOpen(func(circuitbreaker.StateChangedEvent) {
+				if opened.Add(1) != 1 {
+					return
+				}
+				// the breaker is open from here on (the clock is held): executions started from inside its own listener, while
+				// the listener is still running, must be rejected like any other
+				for k := 0; k < 3; k++ {
+					probeWg.Add(1)
+					go func() {
+						defer probeWg.Done()
+						failsafe.NewExecutor[int](*cbRef.Load()).Get(func() (int, error) { probeInvoked.Add(1); return 1, nil })
+					}()
+				}
+				time.Sleep(150 * time.Microsecond)
+			}).OnHalfOpen(func(circuitbreaker.StateChangedEvent) { halfOpened.Add(1) }).
 			OnStateChanged(func(e circuitbreaker.StateChangedEvent) {
 				time.Sleep(20 * time.Microsecond)
 				evMu.Lock()
@@ -348,6 +364,7 @@ func stressBreaker(seed int64, scale int) int {
 			})
 		circuitbreaker.VerifSetClock(b, func() int64 { return now.Load() })
 		cb := b.Build()
+		cbRef.Store(&cb)
 		// phase 1: many executions race with the failures that open the breaker
 		var wg sync.WaitGroup
 		gate := make(chan struct{})
@@ -378,6 +395,10 @@ func stressBreaker(seed int64, scale int) int {
 		time.Sleep(300 * time.Microsecond)
 		close(gate)
 		wg.Wait()
+		probeWg.Wait()
+		if probeInvoked.Load() != 0 {
+			v.add(fmt.Sprintf("open breaker admitted %d executions started while its OnOpen listener was running", probeInvoked.Load()))
+		}
 		if !cb.IsOpen() {
 			v.add("breaker not open after threshold failures")
 			continue
@@ -1277,6 +1298,61 @@ func stressShared(seed int64, scale int) int {
 		}
 	}
 	sharedCache.mu.Unlock()
+	// the retry budget belongs to one execution (C02): executions that share one retry policy, concurrently and in succession,
+	// each get exactly maxRetries + 1 invocations of an always-failing function and end with ExceededError
+	rpBudget := retrypolicy.Builder[int]().WithMaxRetries(2).Build()
+	budgetEx := failsafe.NewExecutor[int](rpBudget)
+	for round := 0; round < 5*scale; round++ {
+		var bw sync.WaitGroup
+		for k := 0; k < 8; k++ {
+			bw.Add(1)
+			go func() {
+				defer bw.Done()
+				for j := 0; j < 4; j++ {
+					calls := 0
+					_, err := budgetEx.Get(func() (int, error) { calls++; runtime.Gosched(); return 0, errX })
+					var exc retrypolicy.ExceededError
+					if calls != 3 || !errors.As(err, &exc) {
+						v.add(fmt.Sprintf("execution through a shared retry policy (maxRetries 2, always failing) made %d invocations and ended with %v", calls, err))
+					}
+				}
+			}()
+		}
+		bw.Wait()
+	}
+	// the winner of a hedged execution keeps an uncancelled context (C09) also when later executions go through the same
+	// hedge policy instance: nothing of one execution's attempts may be visible to another execution
+	hpShared := hedgepolicy.BuilderWithDelay[int](100 * time.Microsecond).WithMaxHedges(2).Build()
+	hpEx := failsafe.NewExecutor[int](hpShared)
+	for round := 0; round < 10*scale; round++ {
+		var started atomic.Int32
+		var winner atomic.Value
+		val, err := hpEx.GetWithExecution(func(e failsafe.Execution[int]) (int, error) {
+			if started.Add(1) == 1 {
+				<-e.Canceled() // the first attempt loses
+				return 0, errX
+			}
+			winner.Store(e)
+			return 42, nil
+		})
+		var later sync.WaitGroup
+		for k := 0; k < 3; k++ {
+			later.Add(1)
+			go func() {
+				defer later.Done()
+				hpEx.Get(func() (int, error) { return 1, nil })
+			}()
+		}
+		later.Wait()
+		hpEx.Get(func() (int, error) { return 1, nil })
+		w, _ := winner.Load().(failsafe.Execution[int])
+		switch {
+		case err != nil || val != 42 || w == nil:
+			v.add(fmt.Sprintf("hedged execution whose second attempt succeeds returned (%d, %v)", val, err))
+		case w.IsCanceled():
+			v.add("a later execution through the shared hedge policy cancelled the context of an earlier execution's winning attempt")
+		}
+	}
 	v.c["bulkhead-permits-free-at-quiescence"] = free
 	if free != 4 {
 		v.add(fmt.Sprintf("after all executions finished %d of 4 bulkhead permits are available (C06 under load)", free))
